@@ -1,7 +1,10 @@
 import os
 import vlib
 
-THEOREMS = []
+THEOREMS = ["Dispenso.Event." + t for t in [
+    "C21_latch_no_lost_wakeup", "C21_latch_quiescent", "C21_latch_never_early", "C21_latch_zero_stable",
+    "C21_event_no_lost_wakeup", "C21_event_quiescent", "C21_event_never_early", "C21_event_completed_stable",
+    "C21_latch_no_lost_wakeup_any", "C21_old_count_down_loses_wakeup"]]
 
 
 def run(ctx, replay):
